@@ -86,6 +86,9 @@ fn verify<T: HashLike>(l: &mut Local, mode: Mode, h: &T, m: &HV, hist: &[String]
             }) {
                 return;
             }
+            if let Ok(Some(why)) = guard(|| h.accessors_inconsistent()) {
+                l.violation("accessors", sig("accessors"), format!("{}: array / length accessors disagree with the slice accessors after [{}]: {}", T::NAME, hist.join("; "), why));
+            }
             // structural equality must agree with == against an independently built equal value
             let stored = guard(|| h.stored());
             if let Ok(st) = stored {
